@@ -3,3 +3,8 @@ package main
 import "net/url"
 
 func urlQueryUnescape(s string) (string, error) { return url.QueryUnescape(s) }
+
+// addresses that look almost like IPv4-mapped ones (::ffff:a.b.c.d) but are genuine IPv6: the ff ff marker with a
+// non-zero prefix, a zero prefix with another marker, NAT64, and friends
+var nearMappedV6 = []string{"2001:db8::ffff:c000:201", "1::ffff:10.0.0.1", "::fffe:10.0.0.1", "::1:ffff:10.0.0.1", "64:ff9b::10.0.0.1",
+	"::ffff:0:10.0.0.1", "0:0:0:0:1:ffff:a00:1", "ffff::ffff:10.0.0.1"}
